@@ -399,13 +399,14 @@ def run_check(prop, tier, seed, replay=None):
             # well above what a run takes on this sandbox): on a loaded machine the run ends in bounded time with
             # what it explored so far, and says so in the evidence
             budget = float(os.environ.get("VERIF_BUDGET_S", "150" if tier == "quick" else "540"))
+            t_gen = time.time()      # the budget is for GENERATING cases: the proof part (build, audit, leanchecker) is not in it
             for c in prop.cases(tier, rng):
                 batch.append(c)
                 if len(batch) >= 2000:
                     judge_cases(prop, cases + batch, rep)
                     cases, batch = [], []
-                    if time.time() - rep.t0 > budget:
-                        rep.notes["stopped_by_time_budget_after_s"] = round(time.time() - rep.t0, 1)
+                    if time.time() - t_gen > budget:
+                        rep.notes["stopped_by_time_budget_after_s"] = round(time.time() - t_gen, 1)
                         break
             cases += batch
             prop.extra_checks(tier, rng, rep)
